@@ -307,3 +307,49 @@ def _zgroup(v, params):
         return False
     seq = _ast(v)
     return seq is not None and any(_group_alt_ends_dot(sg) for sg in _segments(seq))
+
+
+# ---------------------------------------------------------------- file-system findings (C05 and friends)
+
+def _hidden_comp(p):
+    return any(c.startswith('.') for c in p.split('/') if c)
+
+
+def _fs_extra_only_hidden(v):
+    obs = v['observed']
+    if obs.get('missing'):
+        return False
+    ex = obs.get('extra') or []
+    return bool(ex) and all(_hidden_comp(p) for p in ex)
+
+
+@classifier('nullstart_fs')
+def _nullstart_fs(v, params):
+    """NULLSTART seen through glob(): extra results, all with a hidden / special component, from a pattern in which a
+    wildcard stands behind constructs that matched the empty string."""
+    if v['kind'] not in ('glob-vs-reference', 'glob-vs-bash', 'pathlib-vs-reference'):
+        return False
+    if not _fs_extra_only_hidden(v):
+        return False
+    seq = _ast(v)
+    if seq is None:
+        return False
+    fl = v['input']['flags']
+    zmode = 'Y' not in fl or 'Z' in fl      # glob() forces NODOTDIR unless SCANDOTDIR
+    groups_only = 'D' in fl
+    return any(_nullstart(sg, True, False, groups_only and not zmode, zmode) for sg in _segments(seq))
+
+
+def _star_then_dot(seg):
+    return len(seg) >= 2 and seg[0][0] == 'star' and seg[1][0] == 'lit' and seg[1][1] == '.'
+
+
+@classifier('dotstar')
+def _dotstar(v, params):
+    """DOTSTAR: the guarded path star is optional, so `*.h` also returns `.h` (Bash does not)."""
+    if v['kind'] != 'glob-vs-bash' or not _fs_extra_only_hidden(v):
+        return False
+    if 'D' in v['input']['flags']:
+        return False
+    seq = _ast(v)
+    return seq is not None and any(_star_then_dot(sg) for sg in _segments(seq))
